@@ -2,7 +2,9 @@
 running the library's default hash; TLC (spec/TraceLayout.tla over Layout.tla + FNV1a.tla) is the independent writer and
 reader.  Geometry of Bloom-type structures is derived here from the documented formula with 50-digit arithmetic."""
 import json
+import os
 import random as _random
+import re
 import struct
 from decimal import Decimal, getcontext
 
@@ -53,6 +55,7 @@ def record(seed, n_traces, n_ev, kinds):
     rnd = _random.Random(seed)
     script = Script()
     traces = []
+    tmpdir = tlc.new_scratch("layout")
     bloom_cfgs = [(10, 0.05), (1, 0.35), (2, 0.3), (3, 0.3), (5, 0.25), (6, 0.3), (4, 0.1), (8, 0.01), (1, 0.05), (7, 0.2)]
     for ti in range(n_traces):
         kind = kinds[ti % len(kinds)]
@@ -142,14 +145,46 @@ def record(seed, n_traces, n_ev, kinds):
                         break
             except Exception as exc:  # noqa
                 ev["raised"] = repr(exc)
-                tr["ev"].append(dict(ev, bytes=[], hex=[], ans=[]))
+                tr["ev"].append(dict(ev, bytes=[], hex=[], ans=[], hdr=NOHDR))
                 break
             data = bytes(obj)
             hx = list(bytes.fromhex(obj.export_hex())) if kind in ("bloom", "cbloom") else []
             ans = [int(obj.check(k)) for k in real_keys]
-            tr["ev"].append(dict(ev, bytes=list(data), hex=hx, ans=ans))
+            hdr = c_header(obj, tmpdir) if kind in ("bloom", "cbloom") and rnd.random() < 0.5 else NOHDR
+            tr["ev"].append(dict(ev, bytes=list(data), hex=hx, ans=ans, hdr=hdr))
         traces.append(tr)
     return traces
+
+
+NOHDR = {"on": 0, "ok": 0, "est": 0, "n": 0, "m": 0, "k": 0, "rate4": [], "data": []}
+_HDR = re.compile(r"""\A/\*\ BloomFilter\ Export\ of\ a\ (standard\ BloomFilter|CountingBloomFilter)\ \*/\s*
+\#include\ <inttypes.h>\s*
+const\ uint64_t\ estimated_elements\ =\ (\d+);\s*
+const\ uint64_t\ elements_added\ =\ (\d+);\s*
+const\ float\ false_positive_rate\ =\ ([0-9.eE+-]+);\s*
+const\ uint64_t\ number_bits\ =\ (\d+);\s*
+const\ unsigned\ int\ number_hashes\ =\ (\d+);\s*
+const\ unsigned\ char\ bloom\[\]\ =\ \{([^}]*)\};\s*\Z""", re.X)
+
+
+def c_header(obj, tmpdir):
+    """export_c_header, read back the way a C compiler would: the declarations and the initialiser list of the array"""
+    path = os.path.join(tmpdir, "h.h")
+    try:
+        obj.export_c_header(path)
+        text = open(path, encoding="utf-8").read()
+    except Exception:  # noqa
+        return dict(NOHDR, on=1)
+    m = _HDR.match(text)
+    if not m:
+        return dict(NOHDR, on=1)
+    kindtxt, est, n, rate, bits, nh, arr = m.groups()
+    toks = [t.strip() for t in arr.replace("\n", " ").split(",") if t.strip()]
+    if not all(re.fullmatch(r"0x[0-9a-fA-F]{1,2}", t) for t in toks) or (kindtxt == "CountingBloomFilter") != (type(obj).__name__ == "CountingBloomFilter"):
+        return dict(NOHDR, on=1)
+    if max(int(est), int(n), int(bits), int(nh)) >= 2 ** 31:
+        return NOHDR
+    return {"on": 1, "ok": 1, "est": int(est), "n": int(n), "m": int(bits), "k": int(nh), "rate4": list(struct.pack("<f", float(rate))), "data": [int(t, 16) for t in toks]}
 
 
 CFG = """INIT Init
@@ -161,7 +196,7 @@ CHECK_DEADLOCK FALSE
 def validate(traces, timeout=1200):
     slim = [{k: v for k, v in tr.items() if k != "text_keys"} for tr in traces]
     for tr in slim:
-        tr["ev"] = [{k: e[k] for k in ("op", "k", "a", "bytes", "hex", "ans")} for e in tr["ev"]]
+        tr["ev"] = [{k: e.get(k, NOHDR) for k in ("op", "k", "a", "bytes", "hex", "ans", "hdr")} for e in tr["ev"]]
     verdicts = {}
 
     def on_json(j):
@@ -202,6 +237,9 @@ def run(focus, tier, seed):
                     states.add(key)
                     total.nontriv(hash(key))
             total.ok("C06", "C06.writer", len(tr["ev"]))
+            if tr["kind"] in ("bloom", "cbloom"):
+                total.ok("C06", "C06.hex", len(tr["ev"]))
+                total.ok("C06", "C06.c_header", sum(1 for e in tr["ev"] if e.get("hdr", NOHDR)["on"]))
             if tr["kind"] in ("bloom", "cbloom", "cms"):
                 total.ok("C06", "C06.reader", len(tr["ev"]) * len(tr["keys"]))
             for clause, idx in fails:
